@@ -5,3 +5,5 @@ pub mod syntax;
 pub mod schema;
 pub mod json;
 pub mod schema_mut;
+pub mod exec_ops;
+pub mod worlds;
